@@ -351,23 +351,28 @@ mutual
       match fromSpecs f.cells (some fr) with
       | .error w => (.stuck w, st)
       | .ok cells =>
-        match evalDflts fuel cfg fr f.defaults st with
+        match evalDflts fuel cfg fr (f.paramLen - f.defaults.length) f.defaults st with
         | (.ok ds, st') =>
           (.val (.fn (.mk (fr.tmpl.id ++ [cell]) (some fr.tmpl.id) cells f.decls f.paramLen ds (some f.out))), st')
         | (.error r, st') => (r, st')
 
-  def evalDflts (fuel : Nat) (cfg : Cfg) (fr : RFrame) (ds : List XE) (st : St) : Except CRes (List CVal) × St :=
+  /-- the default expressions, left to right; `skip` = the number of required parameters in front of them (no
+  evaluation; one unit of fuel each, as `Core.evalDflts` walks over them) -/
+  def evalDflts (fuel : Nat) (cfg : Cfg) (fr : RFrame) (skip : Nat) (ds : List XE) (st : St) : Except CRes (List CVal) × St :=
     match fuel with
     | 0 => (.error .oof, st)
     | fuel + 1 =>
-      match ds with
-      | [] => (.ok [], st)
-      | d :: rest => match eval fuel cfg fr d false st with
-          | (.val v, st') => match evalDflts fuel cfg fr rest st' with
-              | (.ok vs, st'') => (.ok (v :: vs), st'')
-              | r => r
-          | (.tail _, st') => (.error (.stuck "tail escaped"), st')
-          | (r, st') => (.error r, st')
+      match skip with
+      | skip + 1 => evalDflts fuel cfg fr skip ds st
+      | 0 =>
+        match ds with
+        | [] => (.ok [], st)
+        | d :: rest => match eval fuel cfg fr d false st with
+            | (.val v, st') => match evalDflts fuel cfg fr 0 rest st' with
+                | (.ok vs, st'') => (.ok (v :: vs), st'')
+                | r => r
+            | (.tail _, st') => (.error (.stuck "tail escaped"), st')
+            | (r, st') => (.error r, st')
 
   /-- `eval_func_with_values` (:409-454): error arguments, the call counter, then the trampoline -/
   def callUser (fuel : Nat) (cfg : Cfg) (caller : RFrame) (t : Tmpl) (args : List CVal) (st : St) : CRes × St :=
